@@ -253,7 +253,7 @@ func containsStr(s, sub string) bool {
 
 func TestC03_Handler(t *testing.T) {
 	RunProp(t, Prop[DepositCase]{
-		ID: "C03", Name: "handler", Quick: 1200, Thor: 40_000,
+		ID: "C03", Name: "handler", Quick: 2400, Thor: 40_000,
 		Gen: genDepositCase, Run: runDepositHandler,
 		Rule: "per case: bridge parameters (rate 0..10000, cap, minimum), 1-3 registered keys (ECDSA/Schnorr), up to 6 model Bitcoin blocks (1..33 txs, deposit tx at any position incl. coinbase, depth 0..129 below the voted tip, v0/v1, boundary values) voted through genesis, then up to 40 deposit attempts each with one mutation from a 19-entry catalogue (header, tx bytes, output index, version, EVM address, key, proof, claimed position incl. neighbours/aliases/random, duplicates) given to the registered NewDeposits handler; oracle = deposit oracle computed from the model (accept/reject/unspecified), receipt identity amount+tax=value with the integer tax formula, tax<value, second credit rejected, HasDeposited; non-trivial = attempt passes stateless validation; evaluations count attempts",
 	})
@@ -492,7 +492,7 @@ func runDepositHistory(c DepositCase) Outcome {
 
 func TestC03_History(t *testing.T) {
 	RunProp(t, Prop[DepositCase]{
-		ID: "C03", Name: "history", Quick: 320, Thor: 10_000,
+		ID: "C03", Name: "history", Quick: 640, Thor: 10_000,
 		Gen: genDepositHistory, Run: runDepositHistory,
 		Rule: "histories of 2-8 MsgNewDeposits transactions (1-16 items each, repeated items, mutated items, several batches per consensus block, restarts between blocks) through FinalizeBlock; model: a batch succeeds iff every item is acceptable and no (txid, output) was credited before or repeats inside it; every deposit system transaction found in later execution payloads must have been credited by the model exactly once, in order, with amount+tax=value and the tax formula; HasDeposited equals the model set; non-trivial = history contains an acceptable item",
 	})
